@@ -1,6 +1,7 @@
 (* C07 — substitution equals syntactic replacement of a variable by a function. *)
 From Coq Require Import List NArith Bool. Import ListNotations.
-From BddVerif Require Import Model.Bdd Model.Apply Model.Ops Proofs.Sem Proofs.Canon Proofs.ApplySem Proofs.ApplyTop Proofs.RelSem.
+From BddVerif Require Import Model.Bdd Model.Apply Model.Ops Model.Substitute Proofs.Sem Proofs.Canon Proofs.ApplySem Proofs.ApplyTop Proofs.RelSem
+  Proofs.SubstituteSem.
 Open Scope N_scope.
 
 (* f.substitute(x, g) at v = f at v with x replaced by g(v) — also when g depends on x; never a panic
@@ -18,3 +19,41 @@ Example C07_nonvacuous :
   wfb f = true /\ wfb g = true /\ substitute f 0 g = Ok g.
 Proof. vm_compute. repeat split; reflexivity. Qed.
 Print Assumptions C07_nonvacuous.
+
+(* ---- the same property about the library's OWN algorithm (Model/Substitute.v: step-faithful composition of the
+   faithful models of support_set, set_num_vars, rename_variables, mk_literal, iff and the nested apply, with the
+   clone / safe / proxy-variable paths of the Rust and every unwrap/assert as an explicit Panic) ---- *)
+
+(* never a panic for well-formed operands over the same variable count below the u16 maximum, and the result is
+   f at v with x replaced by g(v) — also when g depends on x (proxy-variable path) *)
+Theorem C07_substitute_faithful_correct : forall f x g,
+  wf f -> wf g -> nvars f = nvars g -> x < nvars f -> nvars f < 65535 ->
+  exists r, substitute_faithful f x g = Ok r /\ wf r /\ nvars r = nvars f /\
+    forall v, eval r v = eval f (upd v x (eval g v)).
+Proof. exact substitute_faithful_correct. Qed.
+Print Assumptions C07_substitute_faithful_correct.
+
+(* the library's algorithm returns the very array of the compositional model used in C07_substitute *)
+Theorem C07_substitute_faithful_eq_model : forall f x g,
+  wf f -> wf g -> nvars f = nvars g -> x < nvars f -> nvars f < 65535 ->
+  substitute_faithful f x g = substitute f x g.
+Proof. exact substitute_faithful_eq_model. Qed.
+Print Assumptions C07_substitute_faithful_eq_model.
+
+(* the documented limit ("fewer than the maximum number of variables"): the proxy variable cannot be created *)
+Theorem C07_substitute_faithful_panic_bound : forall f x g, 65535 <= nvars f ->
+  mem x (support f) = true -> mem x (support g) = true -> substitute_faithful f x g = Panic.
+Proof. exact substitute_faithful_panic_bound. Qed.
+Print Assumptions C07_substitute_faithful_panic_bound.
+
+(* the proxy-variable path on the shape that broke the pinned code: g depends on x and has a variable above x
+   that f does not mention; and the limit is reached with 65535 variables *)
+Example C07_substitute_faithful_nonvacuous :
+  let f := [mkNode 2 0 0; mkNode 2 1 1; mkNode 0 0 1] in
+  let g := [mkNode 2 0 0; mkNode 2 1 1; mkNode 1 0 1; mkNode 0 0 2] in
+  let h := [mkNode 65535 0 0; mkNode 65535 1 1; mkNode 0 0 1] in
+  wfb f = true /\ wfb g = true /\ mem 0 (support f) = true /\ mem 0 (support g) = true /\
+  substitute_faithful f 0 g = Ok g /\
+  wfb h = true /\ substitute_faithful h 0 h = Panic.
+Proof. vm_compute. repeat split; reflexivity. Qed.
+Print Assumptions C07_substitute_faithful_nonvacuous.
